@@ -150,7 +150,8 @@ def cases(tier, seed):
         if c["n"] == 1:
             out.append({"id": "graph:" + c["key"], "doc": c["doc"], "target": "D0", "settings": S_BUILDER, "family": "cycle", "shape": "graph", "ctx": "n1",
                         "alias_only_cycle": C07._alias_only_cycle([C07._deser(nd) for nd in c["nodes"]]),
-                        "obj_enum": any(nd[0] == "ntobj" for nd in c["nodes"])})
+                        "obj_enum": any(nd[0] == "ntobj" for nd in c["nodes"]),
+                        "anyof_flatten_cycle": C07._anyof_flatten_cycle([C07._deser(nd) for nd in c["nodes"]])})
     seen, res = set(), []
     for p in out:
         if p["id"] not in seen:
@@ -175,6 +176,8 @@ def execute(cases_, tier, seed):
             feats["alias_only_cycle"] = p["alias_only_cycle"]
         if p.get("obj_enum"):
             feats["obj_enum"] = True
+        if p.get("anyof_flatten_cycle"):
+            feats["anyof_flatten_cycle"] = True
         ops = (wc.answer or {}).get("ops") or []
         st = wc.ingest.get("status") if wc.ingest else "abort"
         bad_op = next((o for o in ops if o.get("status") in ("err", "panic")), None)
